@@ -247,6 +247,28 @@ class RegExp:
         return None
 
 
+    def match_all(self, string: str) -> list:
+        """Every match of a global regex, the way String.prototype.match and
+        replace collect them: exec from lastIndex 0 until it fails, which
+        leaves lastIndex at 0; after an empty match the next attempt starts one
+        position further on.
+        """
+        results = []
+        pos = 0  # where the next attempt starts, as an index into the Python string
+        while pos <= len(string):
+            self.lastIndex = (
+                _codepoint_to_utf16_index(string, pos) if self._unicode else pos
+            )
+            result = self.exec(string)
+            if result is None:
+                return results
+            results.append(result)
+            match_len = len(result[0]) if result[0] else 0
+            pos = result.index + match_len if match_len > 0 else result.index + 1
+        self.lastIndex = 0
+        return results
+
+
 def match(pattern: str, string: str, flags: str = "") -> Optional[MatchResult]:
     """
     Convenience function to match pattern against string.
